@@ -7,8 +7,9 @@
    of length 32. *)
 From Coq Require Import List NArith Bool.
 From V.gen Require Consts PeerIdSites.
-From V.common Require Import Varint.
-From V.C18 Require Import Model Proofs.
+From V.common Require Import Varint Protobuf Sha256.
+From V.C18 Require Import Model Proofs KeyProofs Addr AddrProofs.
+From V.C19 Require Import Formats.
 Import ListNotations.
 Open Scope N_scope.
 
@@ -296,3 +297,319 @@ Example C18_example_round2 :
   /\ derivation_sites <> []
   /\ len (key_encoding (KRsa (repeat 1 270))) = 299.
 Proof. vm_compute. repeat split; discriminate. Qed.
+
+(* ====================================================================================== *)
+(* Round 3                                                                                 *)
+(* ====================================================================================== *)
+
+(* ---- which protobuf-encoded key blobs are keys: the decoder that used to be an oracle ---- *)
+(* keys.proto's message written by prost and read back by the prost model (common/Protobuf.v) *)
+Theorem C18_keymsg_roundtrip :
+  forall m, k_type m < 2 ^ 32 -> len (k_data m) < 2 ^ 64 -> decode_keymsg (encode_keymsg m) = Some m.
+Proof. exact decode_keymsg_encode. Qed.
+Print Assumptions C18_keymsg_roundtrip.
+
+(* the canonical encoding of a key (what the peer id is derived from) is that message *)
+Theorem C18_key_encoding_is_message :
+  (forall k, length k = 32%nat -> key_encoding (KEd k) = encode_keymsg (mkKeyMsg KT_ED25519 k)) /\
+  (forall pk, key_encoding (KRsa pk) = encode_keymsg (mkKeyMsg KT_RSA (spki pk))).
+Proof.
+  split; [intros k L; symmetry; exact (encode_keymsg_ed k L) | intros pk; symmetry; exact (encode_keymsg_rsa pk)].
+Qed.
+Print Assumptions C18_key_encoding_is_message.
+
+(* the KeyType numbers, the list of all key types and the admitted ones (with / without the cargo
+   feature `rsa`) are the tables extracted from src/schema/keys.proto and the match arms of
+   src/crypto/mod.rs on every check *)
+Theorem C18_admission_tables :
+  KT_RSA = 0 /\ KT_ED25519 = 1 /\ KT_SECP256K1 = 2 /\ KT_ECDSA = 3 /\
+  key_types = V.gen.PeerIdSites.key_type_numbers /\
+  remote_admission = V.gen.PeerIdSites.remote_admission /\
+  local_admission = V.gen.PeerIdSites.local_admission.
+Proof.
+  destruct key_type_numbers_match as (A & B & C & D & E). destruct admission_table_match as (F & G).
+  repeat split; assumption.
+Qed.
+Print Assumptions C18_admission_tables.
+
+(* exhaustively over the enum and beyond it: Ed25519 always, RSA only with the feature, Secp256k1,
+   ECDSA and every number outside the enum never *)
+Theorem C18_key_types :
+  map (admitted_type remote_admission false) key_types = [false; true; false; false] /\
+  map (admitted_type remote_admission true) key_types = [true; true; false; false] /\
+  map (admitted_type local_admission true) key_types = [false; true; false; false] /\
+  (forall rsa t, 4 <= t -> admitted_type remote_admission rsa t = false).
+Proof.
+  destruct admitted_enum as (A & B & C). repeat split; try assumption. exact admitted_outside_enum.
+Qed.
+Print Assumptions C18_key_types.
+
+(* RemotePublicKey::from_protobuf_encoding admits a blob only as an Ed25519-typed message whose
+   Data field has 32 bytes that are a curve point, or (feature `rsa`) an RSA-typed message whose
+   Data field the X.509 parser takes; `on_curve` and `x509` are the two library calls left as
+   parameters *)
+Theorem C18_key_admission_sound :
+  forall on_curve x509 rsa b k, decode_pubkey on_curve x509 rsa b = Some k ->
+    exists m, decode_keymsg b = Some m /\
+    match k with
+    | KEd kk => k_type m = 1 /\ k_data m = kk /\ length kk = 32%nat /\ on_curve kk = true
+    | KRsa pk => k_type m = 0 /\ rsa = true /\ x509 (k_data m) = Some pk
+    end.
+Proof. exact decode_pubkey_sound. Qed.
+Print Assumptions C18_key_admission_sound.
+
+Theorem C18_key_admission_other_types :
+  forall on_curve x509 rsa b m,
+    decode_keymsg b = Some m -> k_type m <> 1 -> (k_type m <> 0 \/ rsa = false) ->
+    decode_pubkey on_curve x509 rsa b = None.
+Proof. exact decode_pubkey_other_types. Qed.
+Print Assumptions C18_key_admission_other_types.
+
+(* the canonical encoding of a key is admitted as that key *)
+Theorem C18_key_admission_canonical :
+  forall on_curve x509 rsa,
+  (forall k, length k = 32%nat ->
+     decode_pubkey on_curve x509 rsa (key_encoding (KEd k)) = if on_curve k then Some (KEd k) else None) /\
+  (forall pk, len (spki pk) < 2 ^ 64 ->
+     decode_pubkey on_curve x509 rsa (key_encoding (KRsa pk)) =
+       if rsa then match x509 (spki pk) with Some pk' => Some (KRsa pk') | None => None end else None).
+Proof.
+  intros oc x rsa. split; [exact (decode_pubkey_canonical_ed oc x rsa) | exact (decode_pubkey_canonical_rsa oc x rsa)].
+Qed.
+Print Assumptions C18_key_admission_canonical.
+
+Theorem C18_ed25519_try_from_bytes :
+  forall oc d k, ed25519_try_from_bytes oc d = Some k <-> (k = d /\ length d = 32%nat /\ oc d = true).
+Proof. exact ed25519_try_from_bytes_spec. Qed.
+Print Assumptions C18_ed25519_try_from_bytes.
+
+(* The composition of decoder, admission and derivation: whatever bytes a remote sends as its
+   identity (Noise payload, TLS certificate extension), an accepted identity has the id of the
+   canonical encoding of the admitted key; for Ed25519 that is the identity multihash of
+   08 01 12 20 ‖ key, and the digest of the id decodes back to the same key. *)
+Theorem C18_remote_identity_canonical :
+  forall on_curve x509 rsa (H : hash) b v p,
+    noise_identity (decode_pubkey on_curve x509 rsa) H b v = Some p ->
+    v = true /\ exists k, decode_pubkey on_curve x509 rsa b = Some k /\ p = derive H (key_encoding k) /\
+      match k with
+      | KEd kk => p = mkPid 0 (encode_ed25519 kk) /\ length kk = 32%nat /\ on_curve kk = true /\
+                  decode_pubkey on_curve x509 rsa (digest p) = Some (KEd kk)
+      | KRsa pk => rsa = true
+      end.
+Proof. exact remote_identity_canonical. Qed.
+Print Assumptions C18_remote_identity_canonical.
+
+Theorem C18_remote_identity_one_id :
+  forall on_curve x509 rsa (H : hash) b1 b2 k,
+    decode_pubkey on_curve x509 rsa b1 = Some k -> decode_pubkey on_curve x509 rsa b2 = Some k ->
+    noise_identity (decode_pubkey on_curve x509 rsa) H b1 true =
+      noise_identity (decode_pubkey on_curve x509 rsa) H b2 true /\
+    tls_identity (decode_pubkey on_curve x509 rsa) H b1 true =
+      noise_identity (decode_pubkey on_curve x509 rsa) H b1 true.
+Proof. exact remote_identity_one_id. Qed.
+Print Assumptions C18_remote_identity_one_id.
+
+(* ---- every place that parses a peer id goes through the modelled gates ---- *)
+Theorem C18_parse_sites :
+  parse_sites = V.gen.PeerIdSites.parse_sites.
+Proof. exact parse_sites_match. Qed.
+Print Assumptions C18_parse_sites.
+
+(* ---- canonicality, exactly ---- *)
+(* an accepted byte string is header ++ digest with a header of 2, 11 or 20 bytes (each of the two
+   varints is its one-byte encoding or occupies ten bytes), and with a 2-byte header it is the
+   rendering of the id *)
+Theorem C18_bytes_header :
+  forall b p, of_bytes b = Some p ->
+    exists h, b = h ++ digest p /\ (length h = 2 \/ length h = 11 \/ length h = 20)%nat /\
+              (length h = 2%nat -> h = [code p; len (digest p)]).
+Proof. exact of_bytes_header. Qed.
+Print Assumptions C18_bytes_header.
+
+(* the full form of C18_bytes_canonical_partial: an accepted input is the rendering of its id if
+   AND ONLY IF it is two bytes longer than the digest *)
+Theorem C18_bytes_canonical_iff :
+  forall b p, of_bytes b = Some p -> (to_bytes p = b <-> length b = (length (digest p) + 2)%nat).
+Proof. exact of_bytes_canonical_iff. Qed.
+Print Assumptions C18_bytes_canonical_iff.
+
+(* known-finding class 1, exactly: the accepted inputs that are not canonical are 9 or 18 bytes
+   longer than the rendering *)
+Theorem C18_bytes_noncanonical_length :
+  forall b p, of_bytes b = Some p -> to_bytes p <> b ->
+    (length b = length (to_bytes p) + 9 \/ length b = length (to_bytes p) + 18)%nat.
+Proof. exact of_bytes_noncanonical_length. Qed.
+Print Assumptions C18_bytes_noncanonical_length.
+
+Theorem C18_text_canonical_iff :
+  forall t p, of_text t = Some p ->
+    (to_text p = t <-> exists b, b58_decode t = Some b /\ length b = (length (digest p) + 2)%nat).
+Proof. exact of_text_canonical_iff. Qed.
+Print Assumptions C18_text_canonical_iff.
+
+Theorem C18_component_canonical_iff :
+  forall b p, of_component b = Some p -> (to_component p = b <-> length b = (length (digest p) + 5)%nat).
+Proof. exact of_component_canonical_iff. Qed.
+Print Assumptions C18_component_canonical_iff.
+
+(* The repair that was NOT made. A re-encoding check in from_bytes (`of_bytes_strict`: accept only
+   when to_bytes of the result is the input) would make parsing canonical, and it differs from the
+   real parser exactly on the inputs of class 1. The reference accepts those inputs (same multihash
+   and unsigned-varint code; differential run), the multiaddress path never sees the bytes
+   (multiaddr parses them into its own PeerId type before litep2p is asked), and the statement
+   demands "accepts exactly what the reference accepts": the check would trade that clause for
+   canonicality and make from_bytes disagree with try_from_multiaddr / TryFrom<Multihash>. *)
+Theorem C18_strict_parser :
+  (forall b p, of_bytes_strict b = Some p <-> (valid p = true /\ b = to_bytes p)) /\
+  (forall b, of_bytes_strict b <> of_bytes b <->
+     exists p, of_bytes b = Some p /\
+               (length b = length (to_bytes p) + 9 \/ length b = length (to_bytes p) + 18)%nat).
+Proof. split; [exact of_bytes_strict_spec | exact of_bytes_strict_differs]. Qed.
+Print Assumptions C18_strict_parser.
+
+(* ---- the error variant of from_str ---- *)
+Theorem C18_text_error_variant :
+  forall t,
+  (of_text_err t = 0 <-> exists p, of_text t = Some p) /\
+  (of_text_err t = 1 <-> b58_decode t = None) /\
+  (of_text_err t = 2 <-> exists b, b58_decode t = Some b /\ of_bytes b = None).
+Proof. exact of_text_err_spec. Qed.
+Print Assumptions C18_text_error_variant.
+
+(* ---- is_public_key on values of the type; the infallible conversion ---- *)
+Theorem C18_is_public_key_total :
+  forall H p k, valid p = true -> is_public_key H p k <> None.
+Proof. exact is_public_key_total. Qed.
+Print Assumptions C18_is_public_key_total.
+
+Theorem C18_is_public_key_other :
+  forall H k1 k2, length k1 = 32%nat -> length k2 = 32%nat -> k1 <> k2 ->
+    is_public_key H (from_public_key H k1) k2 = Some false.
+Proof. exact is_public_key_other. Qed.
+Print Assumptions C18_is_public_key_other.
+
+(* `From<PeerId> for multiaddr::PeerId` / to_multiaddr_peer_id: every valid id passes the
+   reference's from_multihash *)
+Theorem C18_infallible_conversion :
+  forall p, valid p = true -> ref_admits p = true.
+Proof. exact valid_ref_admits. Qed.
+Print Assumptions C18_infallible_conversion.
+
+(* non-vacuity, round 3: five other encodings of one Ed25519 key (fields swapped, type repeated,
+   an unknown field, a non-minimal length varint, key type 2^32 + 1) are admitted as that key and
+   a Secp256k1-typed one is not; the class-1 witness is 9 bytes longer than its rendering *)
+Example C18_example_round3 :
+  let k := repeat 7 32 in
+  let dec := decode_pubkey (fun _ => true) (fun _ => None) false in
+  dec ([18; 32] ++ k ++ [8; 1]) = Some (KEd k)
+  /\ dec ([8; 0; 8; 1; 18; 32] ++ k) = Some (KEd k)
+  /\ dec ([8; 1; 18; 32] ++ k ++ [24; 5]) = Some (KEd k)
+  /\ dec ([8; 1; 18; 160; 0] ++ k) = Some (KEd k)
+  /\ dec ([8; 129; 128; 128; 128; 16; 18; 32] ++ k) = Some (KEd k)
+  /\ dec ([8; 2; 18; 32] ++ k) = None
+  /\ dec ([8; 1; 18; 31] ++ removelast k) = None
+  /\ of_bytes_strict witness_noncanonical = None
+  /\ of_text_err [48] = 1 /\ of_text_err [50] = 2.
+Proof. vm_compute. repeat split. Qed.
+
+(* ---- peer ids inside general binary multiaddresses; the address book's constructors ---- *)
+(* (the binary multiaddress parser `maddr_parse` is the model of coq/C19/Formats.v: multiaddr
+   0.18.2's protocol table, whose /p2p component calls this property's `of_bytes`) *)
+Theorem C18_multiaddr_roundtrip :
+  forall cs, forallb comp_ok cs = true -> maddr_parse (enc_maddr cs) = Ok cs.
+Proof. exact maddr_parse_enc. Qed.
+Print Assumptions C18_multiaddr_roundtrip.
+
+(* any address ending with /p2p/<id>, whatever precedes it: try_from_multiaddr gives the id back *)
+Theorem C18_multiaddr_trailing_p2p :
+  forall cs p, forallb comp_ok cs = true -> valid p = true ->
+    of_maddr (enc_maddr (cs ++ [(P2P, to_bytes p)])) = Some p.
+Proof. exact of_maddr_trailing_p2p. Qed.
+Print Assumptions C18_multiaddr_trailing_p2p.
+
+Theorem C18_multiaddr_id_valid :
+  forall b p, of_maddr b = Some p -> valid p = true.
+Proof. exact of_maddr_valid. Qed.
+Print Assumptions C18_multiaddr_id_valid.
+
+(* the one-component parser used in the canonicality theorems is the general one on that input *)
+Theorem C18_component_is_multiaddr :
+  forall p, valid p = true -> of_maddr (to_component p) = Some p /\ of_component (to_component p) = Some p.
+Proof. exact of_component_is_of_maddr. Qed.
+Print Assumptions C18_component_is_multiaddr.
+
+(* a parsed address whose last component is /p2p always yields an id (multiaddr built that component
+   with the reference's from_bytes; litep2p's from_multihash admits the same set) *)
+Theorem C18_parsed_p2p_has_id :
+  forall b cs, maddr_parse b = Ok cs -> ends_with_p2p cs = true -> exists p, of_maddr b = Some p.
+Proof. exact parsed_p2p_has_id. Qed.
+Print Assumptions C18_parsed_p2p_has_id.
+
+(* src/transport/manager/address.rs, AddressRecord::new on ANY parsed address and any valid peer:
+   the record's address parses, ends with /p2p and yields an id — the given peer when the address
+   did not name one (the bytes of `/p2p/<peer>` are appended through the infallible conversion),
+   the one it already named otherwise (address kept byte for byte) *)
+Theorem C18_address_record_new :
+  forall p b cs, maddr_parse b = Ok cs -> valid p = true ->
+    exists rb, record_new_bytes p b = Some rb /\ maddr_parse rb = Ok (record_new p cs) /\
+      (ends_with_p2p cs = false -> of_maddr rb = Some p) /\
+      (ends_with_p2p cs = true -> rb = b /\ exists q, of_maddr rb = Some q).
+Proof. exact record_new_bytes_spec. Qed.
+Print Assumptions C18_address_record_new.
+
+Theorem C18_address_record_components :
+  forall p cs, forallb comp_ok cs = true -> valid p = true ->
+    ends_with_p2p (record_new p cs) = true /\
+    forallb comp_ok (record_new p cs) = true /\
+    (ends_with_p2p cs = false -> of_maddr (enc_maddr (record_new p cs)) = Some p) /\
+    (ends_with_p2p cs = true -> record_new p cs = cs).
+Proof. exact record_new_spec. Qed.
+Print Assumptions C18_address_record_components.
+
+(* non-vacuity: /ip4/1.2.3.4/tcp/8080 gets /p2p/<12 01 07> appended; an address ending in
+   /p2p/<12 01 07> is kept for another peer; from_multiaddr tells the two apart *)
+Example C18_example_address_record :
+  let a := [4; 1; 2; 3; 4; 6; 31; 144] in
+  let p := mkPid 18 [7] in
+  record_new_bytes p a = Some (a ++ [165; 3; 3; 18; 1; 7])
+  /\ of_maddr (a ++ [165; 3; 3; 18; 1; 7]) = Some p
+  /\ record_new_bytes (mkPid 0 [9]) (a ++ [165; 3; 3; 18; 1; 7]) = Some (a ++ [165; 3; 3; 18; 1; 7])
+  /\ of_maddr a = None
+  /\ of_maddr (a ++ [165; 3; 3; 18; 1; 7] ++ [6; 31; 144]) = None.
+Proof. vm_compute. repeat split. Qed.
+
+(* ---- the first sentence of the property in closed form, with SHA-256 itself (common/Sha256.v:
+   executable FIPS 180-4, checked on the NIST vectors and differentially on every run) ---- *)
+Theorem C18_derive_sha256 :
+  forall enc, derive sha256 enc = (if len enc <=? 42 then mkPid 0 enc else mkPid 18 (sha256 enc)) /\
+              derive_fast enc = derive sha256 enc.
+Proof. intros enc. split; [exact (derive_sha256_spec enc) | exact (derive_fast_eq enc)]. Qed.
+Print Assumptions C18_derive_sha256.
+
+(* every derived id is a valid id (32-byte digest, bytes) and goes round through bytes, text and
+   the multiaddress component *)
+Theorem C18_derived_roundtrip :
+  forall enc, bytes_ok enc = true ->
+    valid (derive sha256 enc) = true /\
+    of_bytes (to_bytes (derive sha256 enc)) = Some (derive sha256 enc) /\
+    of_text (to_text (derive sha256 enc)) = Some (derive sha256 enc) /\
+    of_component (to_component (derive sha256 enc)) = Some (derive sha256 enc).
+Proof.
+  intros enc B. split; [exact (derive_sha256_valid enc B) | exact (derive_sha256_roundtrip enc B)].
+Qed.
+Print Assumptions C18_derived_roundtrip.
+
+(* known-finding class 1 for text and for a binary /p2p component, exactly (these are the length
+   differences the oracle's known_class admits — nothing else is excused) *)
+Theorem C18_text_noncanonical_length :
+  forall t p, of_text t = Some p -> to_text p <> t ->
+    exists b, b58_decode t = Some b /\
+      (length b = length (to_bytes p) + 9 \/ length b = length (to_bytes p) + 18)%nat.
+Proof. exact of_text_noncanonical_length. Qed.
+Print Assumptions C18_text_noncanonical_length.
+
+Theorem C18_component_noncanonical_length :
+  forall b p, of_component b = Some p -> to_component p <> b ->
+    exists e, (length b = length (to_component p) + e)%nat /\ In e [3; 9; 12; 18; 21; 27; 30]%nat.
+Proof. exact of_component_noncanonical_length. Qed.
+Print Assumptions C18_component_noncanonical_length.
